@@ -101,8 +101,9 @@ Definition checks (c : case) : list (N * bool) :=
           then eqb (o_ct_ab o)
                  (forallb (fun kv => kv.2 <=? get0 (of_entries (o_a o)) kv.1) (o_b o))
           else true);
-    (108%N, if wf_classes (of_entries (o_a o))
-          then aeqb (of_entries (o_rt_a o)) (of_entries (o_a o)) else true)
+    (* every case value is built through the constructors: no premise about its classes
+       (Assets_wf.exprs_roundtrip_built) *)
+    (108%N, aeqb (of_entries (o_rt_a o)) (of_entries (o_a o)))
   ].
 
 Definition failed (c : case) : list N :=
